@@ -4,10 +4,17 @@ from .util import sub_seed
 
 MUTS = ["bitflip", "boundary", "offbyone", "stringlen", "character", "memoindex", "typeconfusion"]
 
-def cfg(P, mn=60, mx=300, muts=(), rate=0.1, unsafe=False, ext=False, buf=False, mut_unsafe=None, rate_raw=False):
-    return {"P": P, "min": mn, "max": mx, "muts": list(muts), "rate": rate, "unsafe": unsafe,
-            "mut_unsafe": unsafe if mut_unsafe is None else mut_unsafe, "ext": ext, "buf": buf,
-            "rate_raw": rate_raw}
+def cfg(P, mn=60, mx=300, muts=(), rate=0.1, unsafe=False, ext=False, buf=False, mut_unsafe=None, rate_raw=False, bufsize=None, alt_builder=False):
+    c = {"P": P, "min": mn, "max": mx, "muts": list(muts), "rate": rate, "unsafe": unsafe,
+         "mut_unsafe": unsafe if mut_unsafe is None else mut_unsafe, "ext": ext, "buf": buf,
+         "rate_raw": rate_raw}
+    if bufsize is not None: c["bufsize"] = bufsize
+    if alt_builder: c["alt_builder"] = True
+    return c
+
+# mutator lists in which a name is registered more than once (legal: --mutators a b a)
+DUP_LISTS = [["bitflip", "boundary", "bitflip"], ["offbyone", "memoindex", "offbyone", "character"],
+             ["typeconfusion", "typeconfusion"], ["stringlen", "character", "stringlen", "boundary", "character"]]
 
 class Jobs:
     def __init__(self, label):
@@ -70,6 +77,15 @@ def tracegen_jobs(tier):
                 ms = [m for i, m in enumerate(MUTS) if mask >> i & 1]
                 J.seed_job(cfg(P, 10, 40, muts=ms, rate=1.0))
                 J.bytes_job(cfg(P, 10, 40, muts=ms, rate=1.0))
+        # D' a mutator registered more than once; the (inert) buffer-size option; the other builder route
+        for ms in DUP_LISTS:
+            for rate in (0.5, 1.0):
+                J.seed_job(cfg(P, 10, 60, muts=ms, rate=rate))
+                J.bytes_job(cfg(P, 10, 60, muts=ms, rate=rate))
+                J.seed_job(cfg(P, 10, 60, muts=ms, rate=rate, unsafe=True))
+        for bs in (0, 16, 512, 100000):
+            J.seed_job(cfg(P, bufsize=bs)); J.bytes_job(cfg(P, 10, 60, bufsize=bs))
+        J.seed_job(cfg(P, 10, 60, muts=MUTS, rate=0.5, alt_builder=True))
         # E opt-in opcode flags
         for ext in (False, True):
             for buf in (False, True):
